@@ -255,6 +255,9 @@ func (p *Packet) Payload() ([]byte, error) {
 		return nil, gots.ErrNoPayload
 	}
 	offset := p.payloadStart()
+	if offset > PacketSize {
+		return nil, gots.ErrInvalidPacketLength
+	}
 	payload := make([]byte, PacketSize-offset)
 	copy(payload, p[offset:])
 	return payload, nil
@@ -269,6 +272,10 @@ func (p *Packet) SetPayload(data []byte) (int, error) {
 		return 0, gots.ErrNoPayload
 	}
 	freeSpace := p.freeSpace()
+	if freeSpace < 0 {
+		// the optional fields announced by the adaptation field do not fit in the packet
+		return 0, gots.ErrInvalidPacketLength
+	}
 	if freeSpace > len(data) {
 		p.SetAdaptationFieldControl(PayloadAndAdaptationFieldFlag)
 		af, _ := p.AdaptationField()
